@@ -44,6 +44,19 @@ function gen1(rng, params, mode) {
     if (rng.chance(1, 2)) both.reverse();
     rts.splice(0, Math.min(2, rts.length), ...both);
   }
+  // a cycle that passes through an ALIAS of a named type (`Comment = { replies: Thread }`, `Thread = CommentList`,
+  // `CommentList = Comment[]`), entered from either end
+  if (multi && rng.chance(1, 5)) {
+    const k = names.length, cn = "Cm" + k, tn = "Th" + k, ln = "Cl" + k;
+    env.push([cn, [A("object"), [["id", [A("typeof"), "string"]], ["replies", rng.chance(1, 3) ? [A("opt"), [A("ref"), tn]] : [A("ref"), tn]]], []]]);
+    env.push([tn, rng.chance(1, 4) ? [A("desc"), "a thread", [A("ref"), ln]] : [A("ref"), ln]]);
+    env.push([ln, [A("array"), [A("ref"), cn]]]);
+    names.push(cn, tn, ln);
+    const ends = [[A("ref"), cn], [A("ref"), tn], [A("ref"), ln]].filter(() => rng.chance(2, 3));
+    if (ends.length < 2) ends.push([A("ref"), tn], [A("ref"), cn]);
+    for (let i = ends.length - 1; i > 0; i--) { const j = rng.below(i + 1); const t = ends[i]; ends[i] = ends[j]; ends[j] = t; }
+    rts.splice(0, Math.min(ends.length, rts.length), ...ends.slice(0, Math.max(2, Math.min(ends.length, rts.length))));
+  }
   // variants of a discriminated union that are NAMED types (what the compiler emits for `A | B` over declared object
   // types): their definitions are stored under the type's own name, and an override may target them
   if (multi && rng.chance(1, 2)) {
